@@ -247,6 +247,17 @@ def paths(stmts: Sequence[ast.stmt], env0: Optional[Dict[str, ast.AST]] = None, 
                         q.conds.append((v.test, pol))
                         run([ast.Assign(targets=[ast.Name(id=t.id, ctx=ast.Store())], value=_Lit(arm), lineno=getattr(st, "lineno", 0))] + list(stmts[i + 1:]), q)
                     return
+                if isinstance(t, (ast.Tuple, ast.List)) and all(isinstance(e, ast.Name) for e in t.elts) and isinstance(v, ast.IfExp) and _depth_ifexp(v) <= 6 \
+                        and all(isinstance(a_, (ast.Tuple, ast.List)) and len(a_.elts) == len(t.elts) for a_ in (v.body, v.orelse)):
+                    # `(a, b) = (x, y) if c else (y, x)`: one path per arm
+                    for pol, arm in ((True, v.body), (False, v.orelse)):
+                        q = p.fork()
+                        q.conds.append((v.test, pol))
+                        for e, vv in zip(t.elts, arm.elts):
+                            if e.id not in keep:
+                                q.env[e.id] = vv
+                        run(list(stmts[i + 1:]), q)
+                    return
                 if isinstance(t, ast.Name) and t.id in keep:
                     pass
                 elif isinstance(t, ast.Name):
